@@ -154,8 +154,18 @@ def rule_pattern(ctx):
         if txt is None:
             ctx.ob("C15.b", "reference pattern readable", None, sloc)
             continue
+        inline_flags = re.match(r"\(\?([aiLmsux]+)\)", txt)
+        body = txt[inline_flags.end():] if inline_flags else txt
+        # every reference is substituted: the count argument (4th positional of re.sub) is absent or 0
+        count = kwargs.get("count", args[3] if len(args) > 3 else None)
+        okn = count is None or (isinstance(count, Const) and count.v == 0)
+        ctx.ob("C15.b", "every reference of a statement is substituted (no count limit)", okn, sloc, tagof(count) if count is not None else "")
+        if not okn:
+            ctx.violation("C15.b", "variables", "Variables.inline_variables", "substitution count limited", sloc,
+                          f"re.sub is called with count=`{tagof(count)}` (a flag passed positionally lands in `count`): only that many references "
+                          f"of a variable are substituted per statement, the next one is reported as an undefined variable")
         if has_name or "VARNAME" in txt:
-            okb = _boundary_after_name(txt) and txt.startswith("\\$")
+            okb = _boundary_after_name(txt) and body.startswith("\\$")
             ctx.ob("C15.b", f"pattern `{txt}` ends the name at a word boundary", okb, sloc)
             if not okb:
                 ctx.violation("C15.b", "variables", "Variables.inline_variables", "name pattern without end-of-name boundary", sloc,
@@ -167,7 +177,7 @@ def rule_pattern(ctx):
             if not ok:
                 ctx.violation("C15.b", "variables", "Variables.inline_variables", "generic pattern does not consume the whole name", sloc,
                               f"the reference pattern `{txt}` does not match whole names")
-        okf = flags is not None and "IGNORECASE" in tagof(flags) or (txt or "").startswith("(?i")
+        okf = flags is not None and "IGNORECASE" in tagof(flags) or bool(inline_flags and "i" in inline_flags.group(1))
         ctx.ob("C15.b", "reference pattern is case-insensitive", okf, sloc, tagof(flags))
         if not okf:
             ctx.violation("C15.b", "variables", "Variables.inline_variables", "pattern flags", sloc,
